@@ -88,6 +88,11 @@ CLAIMED = {
    note='description.strip().splitlines() is computed by the harness and given to the model as lines; operation paths, scope types and deprecated_since with line breaks are outside the domain (wf_gdefault).',
    technique='Coq proof (line-structure invariants over the assembly) + differential against PyYAML/JSON',
    design='6 C17'),
+ 'C18': dict(
+   text='Proof (Coq), on abstract policy files at the level of the effective check an enforcer computes (spec_rule), default configuration: oslopolicy-policy-upgrade (incl. a deprecated name split into several and an old name that merely aliases the new one), oslopolicy-convert-json-to-yaml (rules equal to the default by printed form commented out; uses print injectivity), oslopolicy-policy-generator (file rules plus registered rules absent from every file) and deletion of everything oslopolicy-list-redundant reports each leave the effective check of every surviving name unchanged; every hypothesis is an exclusion of the quantifier and is shown necessary by a proved counterexample. Differential: the tools through their console entry points (stevedore replaced) on generated default sets and operator files (string and list-of-lists values, deprecated/unknown names, aliases): decisions of an Enforcer on the original policy vs the tool output for every surviving name x role subsets, and tool output vs the model. Partial: YAML/JSON emission and re-reading are library behaviour.',
+   note='The theorems speak about the mapping the tool produces, not about the text; text emission (jsonutils.dumps / yaml.safe_dump) is covered by the differential part only.',
+   technique='Coq proof (fold invariants over dictionaries, print injectivity) + differential on the console entry points',
+   design='6 C18'),
  'C19': dict(
    text='Proof (Coq): for credentials in which system mirrors system_scope (what the tool derives since the F9 repair) the verdict printed for a requested rule is the decision of Enforcer.enforce (passed iff allowed, failed iff denied, including an unresolvable name), the listing is one verdict per stored name containing a colon in sorted order, and each listed verdict is the library decision for that name. Differential: generated policy files x sample and generated tokens (project/domain/system/unscoped) x is_admin x nested target files x requested rules: tool stdout vs Enforcer.enforce and vs the model (credential/target derivation, flatten).',
    note='jsonutils.loads and the token layout are oracles; a token that itself carries a system_scope field is outside the theorem hypothesis.',
